@@ -121,7 +121,7 @@ theorem skeleton_matches :
     Goflow.Generated.skFileSend =
       ["d.lock.RLock()", "defer d.lock.RUnlock()", "verifPoint(\"file.send.picked\")", "fmt.Fprint(w, string(data)+d.lineSeparator)"] ∧
     Goflow.Generated.skFileInit =
-      ["d.lock.Lock()", "d.openFile()", "d.lock.Unlock()", "go", "select{<-c | <-d.q}", "d.lock.Lock()", "d.file.Close()",
+      ["d.q = make(chan bool, 1)", "d.lock.Lock()", "d.openFile()", "d.lock.Unlock()", "go", "select{<-c | <-d.q}", "d.lock.Lock()", "d.file.Close()",
        "d.openFile()", "d.lock.Unlock()", "verifPoint(\"file.reopened\")"] := by
   decide +kernel
 
